@@ -35,6 +35,12 @@ def run(chk):
                 for c in S.corruptions(rng, kind, d, 6):
                     c["kind"] = kind
                     cases.append(c)
+                    if c["what"] in ("header-type", "header-version") and rng.random() < 0.6:
+                        # the same rule on an object that has just loaded a format 1.0 document (no type gate there)
+                        import copy as _copy
+                        old = _copy.deepcopy(d)
+                        old["header"] = {"version": "1.0"}
+                        cases.append(dict(c, preload=old, what=c["what"]))
         mod, fn = LOAD_IMPL[kind]
         ir = core.ImplRunner(mod, fn=fn, per_case_timeout=20.0)
         try:
